@@ -327,9 +327,16 @@ func (q *checker) tcheckAssert(n *a.Assert) error {
 
 func (q *checker) tcheckEq(lID t.ID, lhs *a.Expr, lTyp *a.TypeExpr, rhs *a.Expr, rTyp *a.TypeExpr) error {
 	if (rTyp.IsIdeal() && lTyp.IsNumType()) ||
-		(lTyp.EqIgnoringRefinementsLHSReadOnly(rTyp)) ||
 		(rTyp.IsNullptr() && lTyp.Decorator() == t.IDNptr) {
 		return nil
+	}
+	if lTyp.EqIgnoringRefinementsLHSReadOnly(rTyp) {
+		// For a number, the bounds checker verifies that the value fits the
+		// lhs' refinement. For a container, nothing checks its elements
+		// later, so the element types' refinements must be compatible here.
+		if containerElemRefinementsCompatible(lTyp, rTyp) {
+			return nil
+		}
 	}
 	lStr := "???"
 	if lID != 0 {
@@ -1291,4 +1298,77 @@ var comparisonOps = [...]bool{
 	t.IDXBinaryEqEq:        true,
 	t.IDXBinaryGreaterEq:   true,
 	t.IDXBinaryGreaterThan: true,
+}
+
+// containerElemRefinementsCompatible returns whether a container (array,
+// slice or table) of type rTyp can be assigned to one of type lTyp, as far as
+// the refinements of their element types are concerned. The types are
+// otherwise equal (ignoring refinements).
+//
+// Equal refinements are always fine. A wider lhs element refinement is fine
+// when the elements are copied (arrays are assigned by value) or when the lhs
+// is a read-only view. It is not fine for a read-write view such as a slice,
+// as a store through that view could then break the rhs' narrower refinement.
+// A narrower lhs element refinement is never fine.
+func containerElemRefinementsCompatible(lTyp *a.TypeExpr, rTyp *a.TypeExpr) bool {
+	copiedOrReadOnly, inContainer := true, false
+	for ; (lTyp != nil) && (rTyp != nil); lTyp, rTyp = lTyp.Inner(), rTyp.Inner() {
+		switch lTyp.Decorator() {
+		case t.IDArray, t.IDRoarray, t.IDRoslice, t.IDRotable:
+			inContainer = true
+			continue
+		case t.IDSlice, t.IDTable:
+			inContainer = true
+			copiedOrReadOnly = false
+			continue
+		case 0:
+			if !inContainer {
+				return true
+			}
+		default:
+			return true
+		}
+		if !lTyp.IsNumType() || !rTyp.IsNumType() {
+			return true
+		}
+		lMin, lMax, lOK := refinementOf(lTyp)
+		rMin, rMax, rOK := refinementOf(rTyp)
+		if !lOK || !rOK {
+			return true
+		}
+		if (lMin.Cmp(rMin) == 0) && (lMax.Cmp(rMax) == 0) {
+			return true
+		}
+		return copiedOrReadOnly && (lMin.Cmp(rMin) <= 0) && (lMax.Cmp(rMax) >= 0)
+	}
+	return true
+}
+
+// refinementOf returns the inclusive range of a (possibly refined) base
+// numeric type such as base.u8[..= 7].
+func refinementOf(typ *a.TypeExpr) (min *big.Int, max *big.Int, ok bool) {
+	qid := typ.QID()
+	if (qid[0] != t.IDBase) || (qid[1] >= t.ID(len(numTypeBounds))) {
+		return nil, nil, false
+	}
+	b := numTypeBounds[qid[1]]
+	if b[0] == nil {
+		return nil, nil, false
+	}
+	min, max = b[0], b[1]
+	if x := typ.Min(); x != nil {
+		if cv := x.ConstValue(); cv != nil {
+			min = cv
+		} else {
+			return nil, nil, false
+		}
+	}
+	if x := typ.Max(); x != nil {
+		if cv := x.ConstValue(); cv != nil {
+			max = cv
+		} else {
+			return nil, nil, false
+		}
+	}
+	return min, max, true
 }
